@@ -140,7 +140,7 @@ def view_judge_line(x):
     return ("J view " + " ".join([hxd(f["method"]), hxd(f["script"]), hxd(f["path"]), hxd(f["query"]), pairs_str(f["hdrs"]),
                                    pairs_str(f["get"]), pairs_str(f["post"]), pairs_str(f["cookies"]), hxd(f["body"]),
                                    "1" if (r.script == b"/f" and r.body) else "0",
-                                   kv["env"], kv["get"], kv["post"], kv["cookies"], kv["body"]]))
+                                   kv["env"], kv["names"], kv["get"], kv["post"], kv["cookies"], kv["body"]]))
 
 
 def pick_diverse(bad, n):
